@@ -97,7 +97,7 @@ func (w *dworld) rndJSON(depth int) interface{} {
 		return "héllo/∑~" + fmt.Sprint(docSerial)
 	case 6, 7:
 		m := map[string]interface{}{}
-		keys := []string{"a", "b", "c", "x/y", "t~k", "n"}
+		keys := []string{"a", "b", "c", "x/y", "t~k", "n", "v~1", "~0~1/"}
 		for i, n := 0, rng.Intn(4); i < n; i++ {
 			m[keys[rng.Intn(len(keys))]] = w.rndJSON(depth + 1)
 		}
@@ -256,7 +256,7 @@ func (w *dworld) rndCall(cur interface{}) dcall {
 				return err
 			}}
 		}
-		key := []string{"a", "b", "c", "x/y", "t~k", "n", "z"}[rng.Intn(7)]
+		key := []string{"a", "b", "c", "x/y", "t~k", "n", "z", "v~1", "w~0/~01"}[rng.Intn(9)]
 		val := w.rndJSON(0)
 		return dcall{fmt.Sprintf("(UCall (DPut %s %s %s))", gPath(path), gStr(key), gVal(val)), fmt.Sprintf("%s.PutToObject(%q,%s)", ps, key, jsonStr(val)), func(v interface{}) (interface{}, bool) {
 			if _, ok := getAt(v, path).(map[string]interface{}); !ok {
@@ -510,7 +510,7 @@ func (w *dworld) mutate(v interface{}, depth int) interface{} {
 			}
 		}
 		if rng.Intn(3) == 0 {
-			out[[]string{"new", "a/b", "m~n", "k"}[rng.Intn(4)]] = w.rndJSON(depth + 1)
+			out[[]string{"new", "a/b", "m~n", "k", "q~1", "~~0"}[rng.Intn(6)]] = w.rndJSON(depth + 1)
 		}
 		return out
 	case []interface{}:
